@@ -84,7 +84,64 @@ def mbtiles_format_rules(ck, P):
         ck.check(wtab == spec, "R-CODE", "mbtiles.format|writer", "writer maps (format, compression) to the MBTiles format strings %s" % sorted(wtab), "writer table %s differs from %s" % (wtab, spec), ir.loc(mw))
         ck.check(rtab == spec, "R-CODE", "mbtiles.format|reader", "reader maps the format strings back to the same (format, compression)", "reader table %s differs from %s" % (rtab, spec), ir.loc(mr))
 
+
+def _emptiness_fact(f):
+    """does the fact say that something is empty / zero / absent?"""
+    if f[0] == "pred":
+        return (f[2] in ("is_empty", "is_none") and f[4] is True) or (f[2] == "is_some" and f[4] is False)
+    if f[0] == "cmp":
+        return (f[2] == "==" and (f[3] == "0" or f[1] == "0")) or (f[2] in ("<", "<=") and f[3] in ("1", "0") and f[2] + f[3] != "<0") or (f[2] in (">", ">=") and f[1] in ("1", "0"))
+    return False
+
+
+def write_complete_rules(ck, P):
+    """R-WRITE-COMPLETE: a writer leaves nothing out.
+    (a) exits: in the top-level flow of the container writers (outside closures) every `return Ok(..)`, `continue` and `break` that ends
+        work early is dominated by a fact stating that there is nothing to write (X.is_empty(), len == 0, a + b == 0, is_none());
+        an exit under any other condition (or under the negated one) skips tiles, levels or blocks.
+    (b) the versatiles block writer records an index entry for every tile it is handed: on every path through the per-tile
+        callback `tile_index.set(..)` is evaluated exactly once."""
+    from . import census, mvt
+    fns = [b for b in P.bodies if "::container::" in b["q"] and "::tests::" not in b["q"] and "riter" in b["q"] and b.get("target") in (None, "lib")]
+    if not ck.anchor("R-WRITE-COMPLETE", "container writer functions", fns, 8):
+        return
+    n_exits, bad = 0, []
+    for b in fns:
+        blk = ir.fn_block(b)
+        closures = [c for c in ir.walk_nodes(blk) if c.get("k") == "closure" and "async fn body" not in (c.get("t") or "") and "Coroutine" not in (c.get("ck") or "")]
+        tail = blk.get("tail") if blk.get("k") == "block" else None
+        for n, fs in census.nodes_with_facts(blk, lambda y: y.get("k") in ("ret", "continue", "break")):
+            if any(ir.contains(c["body"], lambda y: y is n) for c in closures):
+                continue
+            if "m" in n:
+                continue          # `?` / ensure! / bail! expansions
+            e = n.get("e")
+            if n["k"] == "ret" and e is not None and ir.contains(e, lambda y: y.get("k") == "call" and (y.get("q") or "").endswith(("Err::{Ctor#0}", "anyhow::Error::msg"))):
+                continue          # error exit
+            if n["k"] == "ret" and tail is not None and (n is tail or ir.contains(tail, lambda y: y is n)):
+                continue
+            n_exits += 1
+            if not any(_emptiness_fact(f) for f in fs):
+                bad.append("%s at %s under %s" % (n["k"], ir.loc(n), [" ".join(map(str, f[1:])) for f in fs][-2:] or "no condition"))
+    ck.check(not bad, "R-WRITE-COMPLETE", "writers|exits", "every early `return Ok` / `continue` / `break` in the writers' own control flow is taken only when there is nothing to write (%d exit(s))" % n_exits,
+             "a writer ends work early although there may be something to write: %s" % bad[:3])
+    wb = [b for b in fns if b["q"].endswith("versatiles::writer::VersaTilesWriter::write_block")]
+    if ck.anchor("R-WRITE-COMPLETE", "VersaTilesWriter::write_block", wb, 1):
+        b = wb[0]
+        clo = [c for c in ir.walk_nodes(b["body"]) if c.get("k") == "closure" and "async fn body" not in (c.get("t") or "") and "Coroutine" not in (c.get("ck") or "") and
+               ir.contains(c["body"], lambda y: y.get("k") == "mcall" and (y.get("q") or "").endswith("TileIndex::set"))]
+        okc = False
+        why = "no per-tile callback that sets index entries"
+        if len(clo) == 1:
+            counts = mvt.exit_counts(P, {"body": clo[0]["body"]}, lambda y: 1 if (y.get("k") == "mcall" and (y.get("q") or "").endswith("TileIndex::set")) else None)
+            okc = counts == {1}
+            why = "possible numbers of tile_index.set(..) per tile: %s" % sorted(counts)
+        ck.check(okc, "R-WRITE-COMPLETE", b["q"] + "|index-entry-per-tile", "every tile handed to the block writer gets exactly one index entry (also a de-duplicated one)",
+                 "a tile can pass the block writer without an index entry or with two (%s): the tile is lost from the container" % why, ir.loc(b))
+
+
 def rules(ck, P):
+    write_complete_rules(ck, P)
     # ---------------- R-WIRE
     recs = [
         ("versatiles.header", "types::file_header::FileHeader::to_blob", "types::file_header::FileHeader::from_blob", 0),
